@@ -543,7 +543,10 @@ impl<R: Read, TSpec> TagIterator<R, TSpec>
 
     #[inline(always)]
     fn validate_tag_path(&self, tag_id: u64) -> bool {
-        validate_tag_path::<TSpec>(tag_id, self.tag_stack.iter().map(|p| (p.tag.get_id(), p.size, 0)))
+        // Which unknown-size masters this tag ends is decided by `open_len_after_closing` alone, so the
+        // masters that stay open are compared with the tag's path literally (as if their sizes were known)
+        let keep = self.open_len_after_closing(tag_id);
+        validate_tag_path::<TSpec>(tag_id, self.tag_stack[..keep].iter().map(|p| (p.tag.get_id(), Known(0), 0)))
     }
 
     #[inline(always)]
